@@ -1,6 +1,7 @@
 ---------------------------- MODULE MC_Fallback ----------------------------
 EXTENDS Fallback, Json, TLC
-Emit == done => PrintT(<<"REPLAY", ToJson([policy |-> policy, outcome |-> outcome, rrdp |-> rrdpOn, rsync |-> rsyncOn,
+Emit == done => PrintT(<<"REPLAY", ToJson([policy |-> policy, copy |-> copy, result |-> result,
+                                           outcome |-> OutcomeOf(copy, result), rrdp |-> rrdpOn, rsync |-> rsyncOn,
                                            notify |-> notify,
-                                           decision |-> Documented(policy, outcome, rrdpOn, rsyncOn, notify)])>>)
+                                           decision |-> Documented(policy, OutcomeOf(copy, result), rrdpOn, rsyncOn, notify)])>>)
 =============================================================================
